@@ -46,6 +46,9 @@ async def stopper(*args, **kwargs):
     return await sim.worker_body("stopper", args, kwargs)
 
 
+alias = work        # rebound between `work` and `job` by the simulation's "rebind" step
+
+
 def on_end(task_id):
     if SIM is not None:
         SIM.cb_record("end", task_id)
